@@ -198,6 +198,21 @@ func (e *Exec) querySweep(r *Replica, m *Model, height int64, full bool, atH int
 		}
 		sort.Strings(wantNames)
 		st := RandomPageStyle(rng)
+		if rng.Chance(0.2) && len(wantNames) > 0 {
+			st.Limit = uint64(len(wantNames)) // a page exactly as large as the listing
+		}
+		if rng.Chance(0.15) {
+			// an offset at or beyond the end yields nothing
+			q := n.Query(qTopics, &aoltypes.QueryTopicsRequest{OwnerAddress: oa, Pagination: &query.PageRequest{Offset: uint64(len(wantNames) + rng.Intn(3)), Limit: 5, Reverse: st.Reverse}}, height)
+			var resp aoltypes.QueryTopicsResponse
+			if e.qpanic(q, "Topics") {
+				return
+			}
+			if q.OK() && resp.Unmarshal(q.Value) == nil && len(resp.TopicNames) > 0 {
+				e.viol("C13", "listing.topics.beyond_end", hex.EncodeToString([]byte(o)), "replica %d height %d: Topics(%s) with an offset at/beyond the end (%d items) returned %v", r.ID, atH, oa, len(wantNames), resp.TopicNames)
+				return
+			}
+		}
 		got, total, bad, pages := pageAll(st, func(pr *query.PageRequest) ([]string, *query.PageResponse, *QRes) {
 			q := n.Query(qTopics, &aoltypes.QueryTopicsRequest{OwnerAddress: oa, Pagination: pr}, height)
 			var resp aoltypes.QueryTopicsResponse
@@ -249,6 +264,9 @@ func (e *Exec) querySweep(r *Replica, m *Model, height int64, full bool, atH int
 			}
 			sort.Strings(wantW)
 			st2 := RandomPageStyle(rng)
+			if rng.Chance(0.2) && len(wantW) > 0 {
+				st2.Limit = uint64(len(wantW))
+			}
 			gotW, totalW, bad, pages := pageAll(st2, func(pr *query.PageRequest) ([]string, *query.PageResponse, *QRes) {
 				q := n.Query(qWriters, &aoltypes.QueryWritersRequest{OwnerAddress: oa, TopicName: name, Pagination: pr}, height)
 				var resp aoltypes.QueryWritersResponse
